@@ -71,13 +71,15 @@ VARIABLES
     \* ---- outputs of the last step ----
     out,        \* "init" | "ok" | "rej"
     ev,         \* [succ, fail, deact]: tunnels with a produce_packet_success / _fail / deactivate event
-    last        \* [e, who, t]: the last action
+    last,       \* [e, who, t]: the last action
+    \* ---- ghost ----
+    pchg        \* params.min_deposit was changed by governance at some point of this history
 
 tunvars == <<count, cfg, active, activeIdx, seq, latest, lastInt, pkts>>
-envvars == <<feed, mode>>
+envvars == <<feed, mode, pchg>>
 balvars == <<feeBal, bal, dep, totDep, modBal, tssBal, totalFees>>
 outvars == <<out, ev, last>>
-vars == <<now, params, count, cfg, active, activeIdx, seq, latest, lastInt, pkts, feed, mode,
+vars == <<now, params, count, cfg, active, activeIdx, seq, latest, lastInt, pkts, feed, mode, pchg,
           feeBal, bal, dep, totDep, modBal, tssBal, totalFees, out, ev, last>>
 
 NoCfg == [present |-> FALSE, kind |-> "none", creator |-> "none", interval |-> 0, sigs |-> {},
@@ -87,6 +89,9 @@ NoLatest == [s \in Sig |-> NoPrice]
 
 AllGTE(x, y) == \A d \in Denom : x[d] >= y[d]
 IsZero(x)    == \A d \in Denom : x[d] = 0
+\* keeper_deposit.go validateDepositDenom: a deposit may only contain denoms that params.min_deposit names NOW (a
+\* denom governance dropped from the list has minimum 0 here).  Withdrawals are not restricted that way.
+Accepts(x)   == \A d \in Denom : x[d] > 0 => params.minDep[d] > 0
 Plus(x, y)   == [d \in Denom |-> x[d] + y[d]]
 Minus(x, y)  == [d \in Denom |-> x[d] - y[d]]
 Abs(x)       == IF x < 0 THEN -x ELSE x
@@ -107,7 +112,7 @@ Init ==
     /\ lastInt = [t \in Tuns |-> Never]
     /\ pkts = [t \in Tuns |-> <<>>]
     /\ feed = [s \in Sig |-> NoPrice]
-    /\ mode = "ok"
+    /\ mode = "ok" /\ pchg = FALSE
     /\ feeBal = [t \in Tuns |-> 0]
     /\ bal = [a \in Acct |-> [d \in Denom |-> InitBal]]
     /\ dep = [t \in Tuns |-> [a \in Acct |-> Zero]]
@@ -170,7 +175,7 @@ ValidIv(iv) == iv >= MinIv /\ iv <= MaxIv
 CreateTunnel(a, kind, iv, sigs, soft, hard, d0) ==
     /\ count < MaxTun
     /\ LET t == count + 1 IN
-       IF ValidSignals(sigs, soft, hard) /\ ValidIv(iv) /\ AllGTE(bal[a], d0)
+       IF ValidSignals(sigs, soft, hard) /\ ValidIv(iv) /\ AllGTE(bal[a], d0) /\ Accepts(d0)
        THEN /\ count' = t
             /\ cfg' = [cfg EXCEPT ![t] = [present |-> TRUE, kind |-> kind, creator |-> a, interval |-> iv, sigs |-> sigs,
                                           soft |-> [s \in Sig |-> IF s \in sigs THEN soft[s] ELSE 0],
@@ -225,7 +230,7 @@ Deactivate(a, t) ==
 (* contains a coin of a denom the module does not accept.                  *)
 (***************************************************************************)
 Deposit(a, t, amt, bad) ==
-    IF Exists(t) /\ ~IsZero(amt) /\ ~bad /\ AllGTE(bal[a], amt)
+    IF Exists(t) /\ ~IsZero(amt) /\ ~bad /\ Accepts(amt) /\ AllGTE(bal[a], amt)
     THEN /\ dep' = [dep EXCEPT ![t][a] = Plus(@, amt)]
          /\ totDep' = [totDep EXCEPT ![t] = Plus(@, amt)]
          /\ bal' = [bal EXCEPT ![a] = Minus(@, amt)]
@@ -273,12 +278,22 @@ Trigger(a, t) ==
 SetFeed(s, p) ==
     /\ feed' = [feed EXCEPT ![s] = p]
     /\ Done("SetFeed", "none", 0, "ok")
-    /\ UNCHANGED <<now, params, tunvars, mode, balvars>>
+    /\ UNCHANGED <<now, params, tunvars, mode, pchg, balvars>>
 
 SetRoute(m) ==
     /\ mode' = m
     /\ Done("SetRoute", "none", 0, "ok")
-    /\ UNCHANGED <<now, params, tunvars, feed, balvars>>
+    /\ UNCHANGED <<now, params, tunvars, feed, pchg, balvars>>
+
+\* governance changes params.min_deposit (amounts raised / lowered, a denom dropped = minimum 0).  Nothing stored
+\* changes: active tunnels stay active, deposits stay withdrawable by their owners in whatever denom they were made;
+\* only later deposits, activations and the withdraw-deactivation rule read the new value.
+SetMinDep(md) ==
+    /\ md # params.minDep /\ \E d \in Denom : md[d] > 0
+    /\ params' = [params EXCEPT !.minDep = md]
+    /\ pchg' = TRUE
+    /\ Done("SetMinDep", "none", 0, "ok")
+    /\ UNCHANGED <<now, tunvars, feed, mode, balvars>>
 
 Fund(t, x) ==
     /\ Exists(t)
@@ -374,8 +389,8 @@ LedgerTotal  == \A t \in Tuns, d \in Denom : totDep[t][d] = SumF([a \in Acct |->
 LedgerBacked == \A d \in Denom :
                     modBal[d] = SumF([t \in Tuns |-> totDep[t][d]], Tuns) + (IF d = FeeDenom THEN totalFees ELSE 0)
 ActiveIndex  == activeIdx = {t \in Tuns : active[t]}
-\* with constant parameters an active tunnel always covers the minimum deposit
-ActiveCovered == \A t \in Tuns : active[t] => (cfg[t].present /\ AllGTE(totDep[t], params.minDep))
+\* while the minimum deposit is unchanged an active tunnel always covers it
+ActiveCovered == \A t \in Tuns : active[t] => (cfg[t].present /\ (pchg \/ AllGTE(totDep[t], params.minDep)))
 InvC17 == TypeOK /\ LedgerTotal /\ LedgerBacked /\ ActiveIndex /\ ActiveCovered
 
 Inv == InvC08 /\ InvC17
